@@ -50,6 +50,8 @@ def work(args):
 
 def main():
     props = [c["property_id"] for c in json.load(open("/verif/MANIFEST.json"))["checks"]]
+    if os.environ.get("TWIN_PROPS"):
+        props = [p for p in props if p in os.environ["TWIN_PROPS"].split(",")]
     only = sys.argv[1] if len(sys.argv) > 1 else None
     jobs, bases = [], {}
     for d in sorted(glob.glob("/verif/twins/*/patch.diff")):
